@@ -8,6 +8,13 @@ are logged and the flush requested while it is held, then it is released.  Free-
 logging goroutines are recorded as well.  Every scenario's event trace (LogCall/LogRet, Write from a recording
 LogWriter, Between, FlushCall/FlushRet) must be a behaviour of LogFlush with FlushComplete / OnceEach /
 OrderPerGoroutine holding in every state.
+Window scenarios with a slow writer (driver -window N): the flusher is held at the gate having found the queue empty, 1-5
+entries are logged, the flush is requested, the flusher is released -- both cases of the blocking select are ready.  The
+recording writer emits Write at the hand-over and then stays inside Write (3 ms, or until FlushLogger has returned), so
+that "handed to the writer before the flush returns" is decided by the order of the recorded events at the return of
+FlushLogger (FlushRet before a Write of an entry of the snapshot = rejected), not by what the writer holds some time later.
+Every 20th of them runs in a child process that leaves through the panic path.  MC_drain_SIGNALFIRST is the guard model of
+that class (completion signalled before the final drain): it must violate FlushComplete.
 """
 import json
 import os
@@ -42,13 +49,24 @@ def run(ctx):
     r0 = tlc.run(ctx, SPEC, "MC_LogFlush", cfg="MC_drain_FALSE.cfg", workers=4, timeout=600, name="mc-nodrain")
     if "FlushComplete" not in r0.inv_violated:
         raise Inconclusive("the model without the drain does not violate FlushComplete: the property would be vacuous")
+    # the model of "completion signalled when the request is seen, the queue emptied afterwards" must violate FlushComplete
+    # as well (and only that: every entry still reaches the writer once and in order)
+    r1 = tlc.run(ctx, SPEC, "MC_LogFlush", cfg="MC_drain_SIGNALFIRST.cfg", workers=4, timeout=600, name="mc-signalfirst")
+    if r1.inv_violated[:1] != ["FlushComplete"]:
+        raise Inconclusive("the model that signals completion before the final drain does not violate FlushComplete (%s)" % r1.inv_violated)
     exe = gobuild.build(ctx, "vdrive")
     out = os.path.join(ctx.work, "lf.ndjson")
     n = ctx.pick(300, 6000)
-    rc, so, se = sh([exe, "logflush-trace", "-seed", str(ctx.seed), "-n", str(n), "-out", out], timeout=3000)
-    nscen, hooks, leftover = [int(x) for x in so.split()[-3:]]
+    nwin = ctx.pick(260, 3000)
+    rc, so, se = sh([exe, "logflush-trace", "-seed", str(ctx.seed), "-n", str(n), "-window", str(nwin), "-out", out], timeout=3000)
+    nscen, hooks, leftover, win_runs, win_drained, win_child, win_child_drained, win_stalled = [int(x) for x in so.split()[-8:]]
     if hooks < nscen:
         raise Inconclusive("hook rogger.flush.between fired %d times in %d scenarios (hook self-test)" % (hooks, nscen))
+    # the window scenarios are about the blocking select taking the flush case while entries are queued: Go chooses at
+    # random between the two ready cases, so about half of the runs must have gone that way
+    if win_drained < win_runs // 5 and not win_stalled:
+        raise Inconclusive("the blocking select took the flush case with a non-empty queue in only %d of %d window scenarios "
+                           "(the schedule is not being driven)" % (win_drained, win_runs))
     traces = split(out)
     cfg_t = open(os.path.join(VERIF, "spec", SPEC, "Trace.cfg")).read()
     cfg = cfg_t.replace("@K@", "10000")
@@ -76,10 +94,12 @@ def run(ctx):
         for f in fails:
             ev = f["event"]
             t = part[f["index"]]
-            windowed = sum(1 for e in t if e["e"] == "Between") > 0
-            ctx.violate("C20:trace-rejected:%s%s" % (ev.get("e"), ":" + f["invariant"][0] if f["invariant"] else ""),
-                        "recorded logger run is not a behaviour of LogFlush at event %s (an entry logged before the flush request "
-                        "was not written when FlushLogger returned, or order/duplication)" % json.dumps(ev),
+            kind = str(t[0].get("kind", ""))
+            # the scenarios through the window with the slow writer get their own class: the flush request met a non-empty queue
+            win = ":flush-request-meets-queued-entries" if kind.startswith("window") or kind == "panic-exit-window" else ""
+            ctx.violate("C20:trace-rejected:%s%s%s" % (ev.get("e"), ":" + f["invariant"][0] if f["invariant"] else "", win),
+                        "recorded logger run (%s) is not a behaviour of LogFlush at event %s (an entry logged before the flush request "
+                        "had not been handed to the writer when FlushLogger returned, or order/duplication)" % (kind, json.dumps(ev)),
                         {"trace": t, "offset": f["offset"]})
     # binding self-test
     base = next((t for t in traces if t[0]["k"] == 10000 and sum(1 for e in t if e["e"] == "Write") >= 2 and any(e["e"] == "FlushRet" for e in t)), None)
@@ -89,7 +109,14 @@ def run(ctx):
     wi = [i for i, e in enumerate(base) if e["e"] == "Write"]
     drop = [e for i, e in enumerate(base) if i != wi[-1]]           # last written entry never reaches the writer
     dup = base[:wi[0] + 1] + [base[wi[0]]] + base[wi[0] + 1:]       # written twice
-    for name, t in (("drop-write", drop), ("dup-write", dup)):
+    # a window scenario in which the last hand-over is recorded after the return of FlushLogger (completion signalled early)
+    wbase = next((t for t in traces if t[0]["k"] == 10000 and str(t[0].get("kind", "")).startswith("window")
+                  and sum(1 for e in t if e["e"] == "Write") >= 2 and t[-1]["e"] == "FlushRet"), None)
+    if wbase is None:
+        raise Inconclusive("no window scenario with two writes for the self-test")
+    lw = max(i for i, e in enumerate(wbase) if e["e"] == "Write")
+    late = wbase[:lw] + wbase[lw + 1:] + [wbase[lw]]
+    for name, t in (("drop-write", drop), ("dup-write", dup), ("write-after-flush-returned", late)):
         acc, fails, _ = tracecheck.validate(ctx, SPEC, "Trace_LogFlush", cfg, [t], name="selftest-" + name)
         selftest[name] = "rejected" if fails else "ACCEPTED"
         if not fails:
@@ -108,11 +135,22 @@ def run(ctx):
                 "through WriteLog, a third through Trace; (e) every 25th scenario: the framework's size-rolled file writer across a re-open "
                 "(the clock of the writer is moved on by 11 s between two flushes), the writes are what the file holds; the panic exits "
                 "alternate between a panic under tars.CheckPanic and tars.Run panicking while it reads a configuration with an unusable "
-                "TLS key; distinct = distinct event sequences",
+                "TLS key; (f) window scenarios with a slow writer (the Write event is recorded at the hand-over, the writer then stays "
+                "inside Write for 3 ms or until FlushLogger has returned): the flusher is held between its selects having found the "
+                "queue empty (at its first poll, or after 1-2 entries went through), 1-5 entries are logged by one or two goroutines "
+                "(sequentially or concurrently; with queue capacity 2 exactly two), the flush is requested, then the flusher is released: "
+                "both cases of the blocking select are ready, Go picks one at random; window_scenarios.flush_case_taken counts the runs "
+                "in which no arrival at the gate was seen between the release and the return of FlushLogger, i.e. the select took the "
+                "flush case while the entries were queued; every 20th of them inside a child process that exits through the panic path "
+                "(flusher held at the gate while 1-40 entries are logged, released 4 ms after the last logging call returned); "
+                "distinct = distinct event sequences",
         "scenarios_by_queue_capacity": {str(k): len(v) for k, v in bycap.items()},
         "panic_exit_scenarios": sum(1 for t in traces if t[0].get("kind") == "panic-exit"),
+        "window_scenarios": {"in_process": win_runs, "flush_case_taken": win_drained, "logging_call_blocked_while_held": win_stalled,
+                             "child_process_panic_exit": win_child, "child_flush_case_taken": win_child_drained},
         "model_checking": {"drain": {"distinct": r.distinct, "generated": r.generated},
-                           "no_drain_violates_FlushComplete": True},
+                           "no_drain_violates_FlushComplete": True,
+                           "completion_signalled_before_final_drain_violates_FlushComplete": True},
         "hook_fired": hooks, "scenarios_with_entries_left_in_queue": leftover, "traces_with_between_event": held,
         "selftest_corrupted_traces": selftest, "exhaustive": False,
     }
